@@ -14,7 +14,8 @@ RULE = ("cases = random schema specs (13 kinds, depth<=3, value+constraint combo
 ASSUMPTIONS = ["reference semantics rv/ref.py is the intended meaning (isinstance typing, re.search, inclusive bounds)",
                "floats inside the documented tolerance zone and NaN-vs-bounds are UNJUDGED, not judged",
                "validate() raising is attributed to C08, not C02"]
-TIERS = {"quick": dict(shards=16, cases=2400), "thorough": dict(shards=16, cases=48000)}
+REACH_FILES = ['d42/validation/_validator.py', 'd42/validation/__init__.py']
+TIERS = {"quick": dict(shards=16, cases=10000), "thorough": dict(shards=16, cases=48000)}
 
 PROF = Profile(max_depth=3, nonfinite=True)
 
